@@ -7,6 +7,7 @@ import (
 	"crypto/sha256"
 	"encoding/hex"
 	"fmt"
+	"sort"
 	"strings"
 	"testing"
 	"time"
@@ -16,20 +17,22 @@ import (
 
 // Scenario is one closed driver + oracle.
 type Scenario struct {
-	Name        string // unique, includes parameters
-	Family      string // scenario family (for violation keys / reporting)
-	Prop        string // property whose oracle keys ("<Prop>/…") this scenario reports; others are ignored
-	Bound       int    // deviation bound to complete (0,1,2,…)
-	PreemptCost bool
-	SelectCost  bool
-	Deepen      int // thorough tier: keep raising the bound up to this value while the deepening slice lasts
-	MaxExecs    int // cap on executions (0 = default)
-	MaxSteps    int
-	Race        bool                                                         // happens-before race detection on goat's field/map accesses (C15)
-	Once        bool                                                         // pure enumeration inside the body: execute exactly once, no schedule search
-	RawRun      func() (viol []vsched.Violation, obs []string, inputs int64) // runs outside the scheduler (real sockets): input enumeration only
-	Horizon     time.Duration
-	Run         func()
+	Name           string // unique, includes parameters
+	Family         string // scenario family (for violation keys / reporting)
+	Prop           string // property whose oracle keys ("<Prop>/…") this scenario reports; others are ignored
+	Bound          int    // deviation bound to complete (0,1,2,…)
+	PreemptCost    bool
+	SelectCost     bool
+	Deepen         int // thorough tier: keep raising the bound up to this value while the deepening slice lasts
+	MaxExecs       int // cap on executions (0 = default)
+	MaxSteps       int
+	Race           bool                                                         // happens-before race detection on goat's field/map accesses (C15)
+	ExpectOutcomes []string                                                     // engine self-test: the exact set of observation logs over all executions
+	ExpectRace     string                                                       // engine self-test: "race" = some execution must report a race, "norace" = none may
+	Once           bool                                                         // pure enumeration inside the body: execute exactly once, no schedule search
+	RawRun         func() (viol []vsched.Violation, obs []string, inputs int64) // runs outside the scheduler (real sockets): input enumeration only
+	Horizon        time.Duration
+	Run            func()
 }
 
 // Found is a violation with everything needed to replay it.
@@ -73,23 +76,25 @@ type Report struct {
 }
 
 type Options struct {
-	Deadline    time.Time // stop (exhaustive=false) when passed
-	MaxFound    int       // stop after this many distinct violation keys (known findings not counted)
+	Deadline    time.Time       // stop (exhaustive=false) when passed
+	MaxFound    int             // stop after this many distinct violation keys (known findings not counted)
 	KnownKeys   map[string]bool // keys of recorded known findings: reported, but never a reason to stop exploring
 	KeepSample  bool
 	DeepenSlice time.Duration
 }
 
 type explorer struct {
-	t        *testing.T
-	sc       *Scenario
-	opt      Options
-	rep      *Report
-	outcomes map[[32]byte]struct{}
-	keys     map[string]bool
-	stop     bool
-	maxExecs int
-	bound    int
+	t            *testing.T
+	sc           *Scenario
+	opt          Options
+	rep          *Report
+	outcomes     map[[32]byte]struct{}
+	keys         map[string]bool
+	stop         bool
+	selfOutcomes map[string]bool
+	selfRace     bool
+	maxExecs     int
+	bound        int
 }
 
 func cfgOf(sc *Scenario, prefix []int, verbose bool) vsched.Config {
@@ -199,6 +204,26 @@ func Explore(t *testing.T, sc *Scenario, opt Options) *Report {
 	}
 	rep.Outcomes = len(x.outcomes)
 	rep.Exhaustive = rep.BoundDone >= sc.Bound && rep.Cap == ""
+	if rep.EngineError == "" && rep.Exhaustive {
+		if sc.ExpectOutcomes != nil {
+			var got []string
+			for o := range x.selfOutcomes {
+				got = append(got, o)
+			}
+			sort.Strings(got)
+			want := append([]string{}, sc.ExpectOutcomes...)
+			sort.Strings(want)
+			if strings.Join(got, ",") != strings.Join(want, ",") {
+				rep.EngineError = fmt.Sprintf("SELF-TEST %s: outcomes over all executions with <=%d deviations are %v, Go's semantics give %v", sc.Name, sc.Bound, got, want)
+			}
+		}
+		if sc.ExpectRace == "race" && !x.selfRace {
+			rep.EngineError = fmt.Sprintf("SELF-TEST %s: the race detector reported nothing for a program with a data race", sc.Name)
+		}
+		if sc.ExpectRace == "norace" && x.selfRace {
+			rep.EngineError = fmt.Sprintf("SELF-TEST %s: the race detector reported a race in a correctly synchronised program", sc.Name)
+		}
+	}
 	rep.WallS = time.Since(start).Seconds()
 	return rep
 }
@@ -292,6 +317,17 @@ func (x *explorer) stuckKey(res *vsched.Result) {
 
 func (x *explorer) check(prefix []int, res *vsched.Result) {
 	x.stuckKey(res)
+	if x.sc.ExpectOutcomes != nil || x.sc.ExpectRace != "" {
+		if x.selfOutcomes == nil {
+			x.selfOutcomes = map[string]bool{}
+		}
+		x.selfOutcomes[strings.Join(res.Obs, " | ")] = true
+		for _, v := range res.Violations {
+			if strings.HasPrefix(v.Key, "C15/race|") {
+				x.selfRace = true
+			}
+		}
+	}
 	h := sha256.Sum256([]byte(strings.Join(res.Obs, "\n") + "\n" + res.End))
 	if _, ok := x.outcomes[h]; !ok {
 		x.outcomes[h] = struct{}{}
